@@ -28,7 +28,7 @@ if REPLAY:
 else:
     loader.install()
 
-from onsager import OnsagerCalc   # noqa: E402
+from onsager import OnsagerCalc, crystal   # noqa: E402
 from symx import core, harness, contracts, shim   # noqa: E402
 from symx.core import ENG, Sym   # noqa: E402
 sys.path.insert(0, __file__.rsplit('/', 1)[0])
@@ -39,21 +39,55 @@ BAND_SKIP = 1e-6      # non-zero relaxation rates are assumed >= BAND_SKIP * ave
 BAND_MERGE = 1e-4     # two rates are assumed equal or separated by more than BAND_MERGE*(sum) + 1e-7 (the code merges isclose())
 
 
+# crystals beyond the exact ones: losstensors uses no geometry (rates and site dipoles only), so irrational structure constants do
+# not enter the obligations; these bring degenerate relaxation modes that DO carry a loss tensor (3- and 4-fold sites)
+GENERAL = {
+    # BCC octahedral interstitials (Snoek relaxation): 3 sites, one class, doubly degenerate mode with tetragonal dipoles
+    'bccoct': lambda: (crystal.Crystal(np.array([[-0.5, 0.5, 0.5], [0.5, -0.5, 0.5], [0.5, 0.5, -0.5]]),
+                                       [[np.zeros(3)], [np.array([0., 0.5, 0.5]), np.array([0.5, 0., 0.5]), np.array([0.5, 0.5, 0.])]]), 1, 0.6),
+    # 2-D triangular host, 3 edge-centre sites (3-fold: E mode couples to strain)
+    'tri-edge': lambda: (crystal.Crystal(np.array([[1., 0.5], [0., np.sqrt(0.75)]]),
+                                         [[np.zeros(2)], [np.array([0.5, 0.]), np.array([0., 0.5]), np.array([0.5, 0.5])]]), 1, 0.6),
+    # HCP octahedral + tetrahedral network (two classes, 6 sites)
+    'hcp-ot': lambda: (geom_hcpot(), 1, 0.7),
+}
+
+
+def geom_hcpot():
+    h = crystal.Crystal.HCP(1.0)
+    return h.addbasis(h.Wyckoffpos(np.array([0., 0., 0.5])) + h.Wyckoffpos(np.array([1. / 3., 2. / 3., 0.625])))
+
+
+_GC = {}
+
+
+def get_calc(cname):
+    if cname in GENERAL:
+        if cname not in _GC:
+            crys, chem, cut = GENERAL[cname]()
+            jn = crys.jumpnetwork(chem, cut)
+            _GC[cname] = (crys, OnsagerCalc.Interstitial(crys, chem, crys.sitelist(chem), jn), jn)
+        return _GC[cname]
+    return inter.get_calc(cname)
+
+
 class _OmegaMismatch(Exception):
     pass
 
 
-def reference_matrix(calc, inp):
+def reference_matrix(calc, inp, s=None):
     """symmetrised rate matrix omega_ij = sqrt(rho_i) W_ij / sqrt(rho_j), omega_ii = -sum_j W_ij, and sqrt(rho), from the inputs"""
     N = calc.N
     w_, rates = inter.site_weights(calc, inp)
     Z = sum(w_)
     rho = [x / Z for x in w_]
-    s = [contracts.sym_sqrt(r) for r in rho]
+    if s is None:
+        s = [contracts.sym_sqrt(r) for r in rho]
     om = np.zeros((N, N), dtype=object)
     for (i, j, dx, W, t) in rates:
         if i != j:
-            om[i, j] = om[i, j] + s[i] * W / s[j]
+            # sqrt(rho_i) W_ij / sqrt(rho_j) = sqrt(W_ij W_ji) = Q y_i y_j / (y_T^2 sqrt(P_i P_j)); prefactors are 1 here
+            om[i, j] = om[i, j] + inp.Q[t] * inp.yE(calc.invmap[i]) * inp.yE(calc.invmap[j]) / (inp.yT(t) * inp.yT(t))
             om[i, i] = om[i, i] - W
     return om, s, rho, rates
 
@@ -73,10 +107,64 @@ def connected(calc):
     return len(seen) == N
 
 
+def make_oracle(AL, w, V):
+    """concolic guidance for a grid instance (all energies fixed): numerical values of every constant of the path (inputs and
+    sqrt unknowns from a model of the assumptions, eigenvalues / eigenvectors of the matrix from numpy.linalg.eigh); a branch
+    condition that evaluates to a constant under them is decided that way (tolerance comparisons only: robust to the rounding
+    of the values).  Conditions that mention other symbols (dipoles) are left to the solver."""
+    from fractions import Fraction
+    sv = z3.Solver()
+    sv.set('timeout', 20000)
+    for a in ENG.assumes:
+        sv.add(a)
+    if str(sv.check()) != 'sat':
+        return None
+    m = sv.model()
+
+    def num(v):
+        v = z3.simplify(v)
+        if z3.is_algebraic_value(v):
+            v = v.approx(30)
+        if z3.is_int_value(v):
+            return Fraction(v.as_long())
+        if z3.is_rational_value(v):
+            return v.as_fraction()
+        return None
+    n = AL.shape[0]
+    A = np.zeros((n, n))
+    for i in range(n):
+        for j in range(n):
+            x = num(m.eval(core.toz(AL[i, j]), model_completion=True))
+            if x is None:
+                return None
+            A[i, j] = float(x)
+    wv, Vv = np.linalg.eigh(A)
+    subs = []
+    for d in m.decls():
+        if d.arity() == 0:
+            x = num(m[d])
+            if x is not None and not d.name().startswith(('P', 'e_')):
+                subs.append((d(), z3.RealVal(str(x)) if d.range() == z3.RealSort() else z3.IntVal(int(x))))
+    for k in range(n):
+        subs.append((core.toz(w[k]), z3.RealVal(str(Fraction(float(wv[k]))))))
+        for i in range(n):
+            subs.append((core.toz(V[i, k]), z3.RealVal(str(Fraction(float(Vv[i, k]))))))
+
+    def oracle(zc):
+        r = z3.simplify(z3.substitute(zc, *subs))
+        if z3.is_true(r):
+            return True
+        if z3.is_false(r):
+            return False
+        return None
+    return oracle
+
+
 def loss_laws(cname, grid=None, sym_pre=False):
     def fn():
         ENG.eigh_contract = True
-        crys, calc, jn = inter.get_calc(cname)
+        ENG.exact_sqrt_consts = True
+        crys, calc, jn = get_calc(cname)
         N, dim = calc.N, calc.dim
         name = 'loss:%s:%s' % (cname, 'sym' if grid is None else 'g%d' % grid)
         inp = inter.Inputs(calc, sym_pre=sym_pre)
@@ -88,7 +176,10 @@ def loss_laws(cname, grid=None, sym_pre=False):
         inputs = dict(inp.inputs)
         inputs.update(src.inputs)
         info = {'inputs': inputs, 'replayer': 'loss', 'extra': {'crystal': cname, 'sym_pre': sym_pre}}
-        om, s, rho, rates = reference_matrix(calc, inp)
+        # sqrt(rho): the library's own terms (same memoised sqrt unknowns as inside losstensors), so that the spectral facts
+        # meet the code's expressions syntactically; they are checked against the harness' rho below (lemma D)
+        s_code, _ = inter.code_sqrt_rho(calc, inp)
+        om, s, rho, rates = reference_matrix(calc, inp, list(s_code))
         st = {}
 
         def hook(AL, w, V):
@@ -106,6 +197,8 @@ def loss_laws(cname, grid=None, sym_pre=False):
             ENG.axioms.extend(spectral)
             VVt = np.dot(V, V.T)
             st['spectral'] = spectral + [core.tob(VVt[i, j] == (1 if i == j else 0)) for i in range(N) for j in range(N)]
+            if st.get('oracle'):
+                ENG.branch_oracle = make_oracle(AL, w, V)
             ave = -sum(om[i, i] for i in range(N)) / N
             for k in range(N - 1):
                 ENG.axioms.append(core.tob(w[k] < 0))
@@ -115,9 +208,13 @@ def loss_laws(cname, grid=None, sym_pre=False):
                     d = w[k2] - w[k]
                     ENG.assume(core.Or(d == 0, d > BAND_MERGE * (-w[k] - w[k2]) + 1e-7))
         ENG.eigh_hook = hook
+        if grid is not None and N > 2:
+            st['oracle'] = True
         obs = []
 
         def ob(n, v, **kw):
+            if st.get('oracle'):
+                kw.setdefault('witnessed', True)
             obs.append(('%s:%s' % (name, n), v, dict(info, sig='loss:' + n.split('@')[0], **kw)))
         try:
             with shim.symbolic_mode():
@@ -159,6 +256,17 @@ def loss_laws(cname, grid=None, sym_pre=False):
             ob('psd-sum-of-squares@%d' % m, harness.poly_eq([eLe], [sum(x * x for x in q)]) if K else False, timeout_ms=30000, standalone=True)
             tot = tot + L
         ob('every-nonzero-mode-reported-once', sorted(claimed) == list(range(N - 1)))
+        # reported rates are pairwise different (equal rates belong to ONE mode)
+        for m1 in range(len(res)):
+            for m2 in range(m1 + 1, len(res)):
+                l1, l2 = res[m1][0], res[m2][0]
+                d = l1 - l2
+                distinct = core.Or(d > 1e-6 * (l1 + l2), -d > 1e-6 * (l1 + l2))
+                if ENG.branch_oracle is not None:
+                    o = ENG.branch_oracle(core.tob(distinct))
+                    if o is not None:
+                        distinct = bool(o)
+                ob('rates-distinct@%d.%d' % (m1, m2), distinct)
         # ---- sum rule (lemma chain)
         FF = np.zeros((dim,) * 4, dtype=object)
         for k in range(N - 1):
@@ -168,13 +276,29 @@ def loss_laws(cname, grid=None, sym_pre=False):
 
         def lemma(n, v, **kw):
             nm = '%s:%s' % (name, n)
+            if st.get('oracle'):
+                kw.setdefault('witnessed', True)
             obs.append((nm, v, dict(info, sig='loss:sum-rule', **kw)))
             lem.append(nm)
         lemma('sum-rule-A:total==sum_k F_k(x)F_k', harness.poly_eq(tot.ravel(), FF.ravel()), timeout_ms=60000, standalone=True)
-        M = [[sum(V[i, k] * V[j, k] for k in range(N - 1)) for j in range(N)] for i in range(N)]
-        lemma('sum-rule-B:projector==1-s(x)s', core.And(*[M[i][j] == (1 if i == j else 0) - s[i] * s[j] for i in range(N) for j in range(N)]),
-              timeout_ms=60000, standalone=True, hyp=list(st['spectral']))
-        lemma('sum-rule-D:s^2==rho', core.And(*[s[i] * s[i] == rho[i] for i in range(N)]))
+        # B: projector on the non-zero modes == 1 - s(x)s.  Generic algebra over the contract: V V^T = 1, V[:,N-1] = sigma S, sigma^2 = 1
+        # |- sum_{k<N-1} V_ik V_jk == delta_ij - S_i S_j for ALL reals S (fresh names; the path's sqrt(rho) terms are an instance, and the
+        # hypotheses are literally among this path's contract axioms)
+        S_ = [z3.Real('absS_%d' % i) for i in range(N)]
+        sgz = z3.Real('sigma')
+        Vz = [[core.toz(V[i, k]) for k in range(N)] for i in range(N)]
+        last = N - 1
+        b1, b2 = [], []
+        for i in range(N):
+            for j in range(N):
+                d_ = 1 if i == j else 0
+                b1.append(z3.Implies(sum(Vz[i][k] * Vz[j][k] for k in range(N)) == d_,
+                                     sum(Vz[i][k] * Vz[j][k] for k in range(N - 1)) == d_ - Vz[i][last] * Vz[j][last]))
+                b2.append(z3.Implies(z3.And(sgz * sgz == 1, Vz[i][last] == sgz * S_[i], Vz[j][last] == sgz * S_[j]),
+                                     Vz[i][last] * Vz[j][last] == S_[i] * S_[j]))
+        lemma('sum-rule-B1:drop-zero-mode-from-completeness', Sym_bool(z3.And(*b1)), timeout_ms=60000, standalone='only', hyp=[])
+        lemma('sum-rule-B2:zero-mode(x)zero-mode==s(x)s', Sym_bool(z3.And(*b2)), timeout_ms=60000, standalone='only', hyp=[])
+        lemma('sum-rule-D:s^2==rho', core.And(*([s[i] * s[i] == rho[i] for i in range(N)] + [s[i] > 0 for i in range(N)])))
         # abstract step: M = 1 - s(x)s |- sum_ij M_ij s_i s_j P_i(x)P_j == sum_i s_i^2 P_i(x)P_i - (sum s_i^2 P_i)(x)(sum s_i^2 P_i)
         aM = [[z3.Real('aM_%d_%d' % (i, j)) for j in range(N)] for i in range(N)]
         as_ = [z3.Real('as_%d' % i) for i in range(N)]
@@ -207,15 +331,18 @@ def Sym_bool(z):
 
 
 # ---- replay oracle (plain numpy on the untouched code) ---------------------------------------------------
-def replay_loss(rec):
+def _replay_loss_once(rec, generic):
     cname = rec['extra']['crystal']
-    crys, calc, jn = inter.get_calc(cname)
+    crys, calc, jn = get_calc(cname)
     N, dim = calc.N, calc.dim
     vals = rec['inputs']
     inp = inter.Inputs(calc, vals=vals)
     pre, be, preT, beT = inp.arrays(symbolic=False)
     src = harness.Src(vals)
     dip = [src.reals('P%d' % w, (dim, dim), -1, 1) for w in range(len(calc.sitelist))]
+    if generic or all(np.all(d == 0) for d in dip):
+        # (a counterexample that does not depend on the dipoles comes with all-zero dipoles: every tensor would vanish)
+        dip = [np.array([[0.5 + 0.25 * w + 0.3 * (a + 1) * (b + 2) - 0.2 * w * a for b in range(dim)] for a in range(dim)]) for w in range(len(calc.sitelist))]
     res = calc.losstensors(pre, be, dip, preT, beT)
     # independent reference
     wts = np.array([pre[calc.invmap[i]] * np.exp(-be[calc.invmap[i]]) for i in range(N)])
@@ -257,6 +384,13 @@ def replay_loss(rec):
         if np.linalg.eigvalsh(0.5 * (Lm + Lm.T)).min() < -1e-9 * scale:
             bad.append('loss tensor of rate %g is not positive semidefinite' % l)
         tot += L
+    # one reported mode per distinct non-zero eigenvalue
+    groups = []
+    for x in nz:
+        if not groups or abs(x - groups[-1]) > 1e-4 * abs(x):
+            groups.append(x)
+    if len(res) != len(groups):
+        bad.append('%d modes reported, the symmetrised rate matrix has %d distinct non-zero eigenvalues %s' % (len(res), len(groups), groups))
     for a, (l1, _) in enumerate(res):
         for (l2, _) in res[a + 1:]:
             if abs(l1 - l2) <= 1e-6 * abs(l1):
@@ -266,15 +400,26 @@ def replay_loss(rec):
     if np.abs(tot - fl).max() > 1e-8 * scale:
         bad.append('sum of loss tensors differs from the dipole fluctuation by %g' % np.abs(tot - fl).max())
     if bad:
-        return True, '; '.join(bad[:4]) + ' (inputs %s)' % vals
+        return True, '; '.join(bad[:4]) + ' (inputs %s%s)' % (vals, '; dipoles replaced by %s' % [d.tolist() for d in dip] if generic else '')
     return False, 'rates, symmetries, PSD and sum rule hold'
+
+
+def replay_loss(rec):
+    """the inputs of the record; if they do not show a violation, the same energies with a fixed generic set of dipoles (a
+    counterexample to a dipole-independent obligation comes with arbitrary, often vanishing, dipoles)"""
+    bad, detail = _replay_loss_once(rec, False)
+    if not bad:
+        bad2, detail2 = _replay_loss_once(rec, True)
+        if bad2:
+            return bad2, detail2
+    return bad, detail
 
 
 def validate_oracle(chk):
     """the replay oracle accepts the unchanged code on random inputs (also validates the harness' reference formulas)"""
     rng = np.random.RandomState(7)
-    for cname in ('X2', 'X5', 'X1s'):
-        crys, calc, jn = inter.get_calc(cname)
+    for cname in ('X2', 'X5', 'X1s', 'X6', 'bccoct', 'tri-edge', 'hcp-ot'):
+        crys, calc, jn = get_calc(cname)
         ok = connected(calc)
         chk.note_concrete('connected:%s' % cname, ok)
         for trial in range(3):
@@ -294,10 +439,10 @@ def validate_oracle(chk):
 def sections(tier):
     S = run.Section
     if tier == 'quick':
-        plan = [('X2', None, 160), ('X2', 0, 160), ('X2', 3, 160), ('X5', 0, 160), ('X5', 1, 160), ('X1s', 0, 160), ('X2b', 1, 160)]
+        plan = [('X2', None, 160), ('X2', 0, 160), ('X2', 3, 160), ('X5', 0, 160), ('X5', 1, 160), ('X1s', 0, 160), ('X2b', 1, 160), ('X6', 0, 160), ('bccoct', 0, 160), ('bccoct', 2, 160), ('tri-edge', 1, 160), ('hcp-ot', 0, 160)]
     else:
         plan = [('X2', None, 1200), ('X2b', None, 1200), ('X5', None, 1200), ('X1s', None, 1200)] + \
-               [(c, k, 1200) for c in ('X2', 'X2b', 'X5', 'X1s', 'X1') for k in range(4)]
+               [(c, k, 1200) for c in ('X2', 'X2b', 'X5', 'X1s', 'X1', 'X6', 'bccoct', 'tri-edge', 'hcp-ot') for k in range(4)]
     return [S('loss:%s:%s' % (c, 'sym' if g is None else 'g%d' % g), loss_laws(c, g), timeout_ms=30000, budget_s=b, replayer='loss',
               config='%s/%s' % (c, 'all energies symbolic' if g is None else 'grid %d' % g), maxpaths=40) for c, g, b in plan]
 
